@@ -10,6 +10,9 @@ use crate::{
     type_checker::type_checker_context::{TypeCheckerContext, WithType},
 };
 
+/// Largest number of elements a `from..to` range may have.
+pub const MAX_RANGE_SIZE: i64 = 10_000_000;
+
 #[derive(Debug, Serialize, Clone)]
 pub struct NumericRange {}
 
@@ -25,6 +28,16 @@ impl RoocFunction for NumericRange {
                 let from = from.as_integer_cast(context, fn_context)?;
                 let to = to.as_integer_cast(context, fn_context)?;
                 let to_inclusive = to_inclusive.as_boolean(context, fn_context)?;
+                //the range is materialised eagerly: refuse sizes that can only end in an
+                //allocation failure (process abort) or a capacity overflow panic
+                let size = (to as i128) - (from as i128) + (to_inclusive as i128);
+                if size > MAX_RANGE_SIZE as i128 {
+                    return Err(TransformError::TooLarge {
+                        message: "Range has too many elements".to_string(),
+                        got: size.min(i64::MAX as i128) as i64,
+                        max: MAX_RANGE_SIZE,
+                    });
+                }
                 if from >= 0 && to >= 0 {
                     let from = from as usize;
                     let to = to as usize;
